@@ -5,7 +5,13 @@
 (* every maximal behaviour as a replay case with the expected projections of  *)
 (* both roots after every step.                                               *)
 EXTENDS Heap, Json
-CONSTANTS MaxObjs, MaxItems, MaxMut, RootClasses, MechSet, Emit, AtomVals, MutNames
+CONSTANTS MaxObjs, MaxItems, MaxMut, RootClasses, MechSet, Emit, AtomVals, MutNames, ChildClasses
+(* ChildClasses: classes of nested objects.  Besides the two block classes: "list" (a Python list, the form a PVL   *)
+(* sequence takes once loaded) and "qtylist" (a Quantity whose value is such a list, `(1, 2) <m>`): mutable objects  *)
+(* below the top level that deep copies and pickles must duplicate as well.  Their items carry the empty key.       *)
+(* AtomVals beginning with "@" stand for the non-string leaves a loader produces (harness/heapops.py: @empty the     *)
+(* missing-value placeholder, @qty a Quantity, @dt a datetime, @dec a Decimal, @int, @set a frozenset).             *)
+ListLike == {"list", "qtylist"}
 
 K == {"a", "b"}
 VARIABLES heap, phase, cp, mech, tree0, muts
@@ -26,9 +32,10 @@ AddChild(id, k, c) ==
    /\ UNCHANGED <<phase, cp, mech, tree0, muts>>
 (* build in a canonical order (only the newest object or the root may grow) to avoid      *)
 (* reaching the same tree through many orders                                             *)
+KeysFor(id) == IF heap[id].cls \in ListLike THEN {""} ELSE K
 Build == \E id \in {Len(heap)} \cup {1} :
-            \/ \E k \in K, s \in AtomVals : AddAtom(id, k, s)
-            \/ \E k \in K, c \in {"PVLGroup", "PVLObject"} : AddChild(id, k, c)
+            \/ \E k \in KeysFor(id), s \in AtomVals : AddAtom(id, k, s)
+            \/ heap[id].cls \notin ListLike /\ \E k \in K, c \in ChildClasses : AddChild(id, k, c)
 
 Copy(m) ==
    /\ phase = "build" /\ m \in MechSet
@@ -51,8 +58,11 @@ Mutate(side, path, o) ==
    /\ phase = "copied" /\ Len(muts) <= MaxMut
    /\ LET r0  == IF side = "orig" THEN root ELSE cp
           tgt == Resolve(heap, r0, path)
-          res == Apply(heap[tgt].items, AsOp(o))
+          lst == tgt # 0 /\ heap[tgt].cls \in ListLike
+          o1  == IF lst THEN [o EXCEPT !.k = ""] ELSE o          \* list.append(v) / list.pop() / list.clear()
+          res == Apply(heap[tgt].items, AsOp(o1))
       IN /\ tgt # 0
+         /\ lst => o.op \in {"append", "pop", "clear"}
          /\ res.ret.t # "exc"                 \* failing operations change nothing: not interesting here
          /\ heap' = [heap EXCEPT ![tgt].items = res.items]
          /\ muts' = Append(muts, [side |-> side, path |-> path, o |-> o,
